@@ -131,7 +131,18 @@ fn describe(o: &Outcome) -> String {
 
 fn inner(t: &mut Tape, rep: &mut WorldReport) {
     let hseed_target = 1 + t.draw(1 << 32);
-    let mut pp = draw_pparams(t, false);
+    // half of the worlds use the wide protocol-parameter space: with a small fee (coefficient /
+    // constant / margin near zero) or a large coins_per_utxo_byte, a few bytes of difference in the
+    // body a min_utxo(..) is sized from decide whether a round's threshold is covered
+    let wide = t.chance(1, 2);
+    let mut pp = draw_pparams(t, wide);
+    if t.chance(1, 3) {
+        // nearly free transactions: the fee no longer dwarfs a few bytes x coins_per_utxo_byte
+        pp.coef = *t.pick(&[0u64, 1]);
+        pp.constant = *t.pick(&[0u64, 2]);
+        pp.extra = *t.pick(&[Some(0u64), Some(1)]);
+        pp.cpb = *t.pick(&[4310u64, 100_000, 1000]);
+    }
     pp.mainnet = t.chance(1, 5);
     let profile = *t.pick(&[Profile::Fee, Profile::Rich, Profile::Selection]);
     let force_min_utxo = if t.chance(3, 4) { Some(true) } else { None };
@@ -158,8 +169,9 @@ fn inner(t: &mut Tape, rep: &mut WorldReport) {
     let mut w0 = World::new(Tape::replay(vec![]));
     let lcfg = LedgerCfg {
         size: 1 + t.index(6),
-        dist: match t.draw(3) {
+        dist: match t.draw(4) {
             0 => AmountDist::Tight,
+            1 | 2 => AmountDist::Threshold(pp.cpb, 170 + t.draw(120)),
             _ => AmountDist::Comfortable,
         },
         // no tied candidates: which of two equal UTxOs is picked depends on how much hash entropy the
